@@ -320,6 +320,7 @@ function exploreEquivalence(cs, bundle, bundle2, rep, depth2) {
 // histories interleave updates of the parent's data with updates of the child's data (slot values change, slot
 // instances appear and disappear)
 
+const K_TEMPLATE = '<span>{{p}}|{{val}}</span>'
 const CHILD_TEMPLATES = {
   'comp/single': '<slot u="{{p}}" u-v="{{p}}" v="{{p}}" a="{{q}}" zz="{{q}}" w="{{q}}"/><slot name="s" u="{{p}}" v="{{q}}"/>',
   'comp/repeated': '<block wx:for="{{ps}}"><slot u="{{item}}" u-v="{{item}}" v="{{item}}" a="{{q}}"/></block><slot name="s" u="{{p}}"/>',
@@ -479,6 +480,7 @@ function runShard(info, thorough) {
       const files = [[MAIN, T.print(cs.main).text]]
       for (const p of Object.keys(cs.files)) files.push([p, T.print(cs.files[p]).text])
       if (cs.slotCase) for (const p of Object.keys(CHILD_TEMPLATES)) files.push([p, CHILD_TEMPLATES[p]])
+      if (JSON.stringify(cs.main).includes('"tag":"k"')) files.push(['comp/k', K_TEMPLATE])
       return { id: i, files, scripts: Object.keys(cs.scripts).map((p) => [p, cs.scripts[p]]), want: MODE === 'C14' ? ['groups', 'stringify'] : ['groups'] }
     })
     const res = C.compileBatch(jobs, 1)
@@ -537,6 +539,7 @@ function replayOne(rec) {
   const files = [[MAIN, T.print(cs.main).text]]
   for (const p of Object.keys(cs.files)) files.push([p, T.print(cs.files[p]).text])
   if (rec.slot) for (const p of Object.keys(CHILD_TEMPLATES)) files.push([p, CHILD_TEMPLATES[p]])
+  if (JSON.stringify(cs.main).includes('"tag":"k"')) files.push(['comp/k', K_TEMPLATE])
   const res = C.compileBatch([{ id: 0, files, scripts: Object.keys(cs.scripts).map((p) => [p, cs.scripts[p]]), want: ['groups'] }], 1)[0]
   const bundle = D.loadBundle(res.outputs.groups.ok)
   const updateMode = MODE === 'C06' ? 'virtualTree' : undefined
